@@ -46,6 +46,7 @@ type rewriter struct {
 	usedVS      bool
 	ownStructs  map[*types.Named]bool
 	noRace      bool
+	chanLenCap  map[*ast.CallExpr]bool // len(ch) / cap(ch) calls, recorded on the typed AST before any rewriting
 }
 
 func (r *rewriter) pos(n ast.Node) string { return r.fset.Position(n.Pos()).String() }
@@ -92,6 +93,21 @@ var timeFuncs = map[string]string{"After": "After", "NewTimer": "NewTimer", "Aft
 
 // chanOf returns the channel operand of a generated Recv/Send call.
 func chanOf(c *ast.CallExpr) ast.Expr { return c.Fun.(*ast.SelectorExpr).X }
+
+// precompute records type-dependent facts on the original AST (types are attached to original nodes only).
+func (r *rewriter) precompute() {
+	r.chanLenCap = map[*ast.CallExpr]bool{}
+	ast.Inspect(r.file, func(n ast.Node) bool {
+		if call, ok := n.(*ast.CallExpr); ok && len(call.Args) == 1 {
+			if id, ok := call.Fun.(*ast.Ident); ok && (id.Name == "len" || id.Name == "cap") {
+				if _, isB := r.info.Uses[id].(*types.Builtin); isB && r.isChan(call.Args[0]) {
+					r.chanLenCap[call] = true
+				}
+			}
+		}
+		return true
+	})
+}
 
 func (r *rewriter) rewriteFile() {
 	// imports: sync and sync/atomic are swapped for the shim under the same local name
@@ -236,7 +252,7 @@ func (r *rewriter) postCall(c *astutil.Cursor, n *ast.CallExpr) {
 	case "close":
 		c.Replace(&ast.CallExpr{Fun: &ast.SelectorExpr{X: paren(n.Args[0]), Sel: ast.NewIdent("Close")}})
 	case "len", "cap":
-		if len(n.Args) == 1 && r.isChanOrig(n.Args[0]) {
+		if r.chanLenCap[n] {
 			m := "Len"
 			if id.Name == "cap" {
 				m = "Cap"
@@ -604,6 +620,7 @@ func main() {
 				return true
 			})
 			f.Doc = nil
+			r.precompute()
 			r.instrumentAccesses()
 			r.rewriteFile()
 			if r.usedVS {
